@@ -554,4 +554,358 @@ theorem map_range_dropLast {β} (g : Nat → β) (q : Nat) :
   rw [List.dropLast_eq_take, List.length_map, List.length_range, ← List.map_take, List.take_range]
   congr 2; omega
 
+/-! ### arithmetic -/
+
+theorem src_timestamps_length (s : Src) (h : s.wf) : s.timestamps.length = s.data.length := by
+  cases s with
+  | cont c => exact cont_timestamps_length c h
+  | ts l => simp [Src.timestamps, Src.data]
+
+theorem arith_ok (op : Op) (a b : Src) (ha : a.wf) (hb : b.wf) (r : Src) (h : arith op a b = .ok r) :
+    b.timestamps = a.timestamps ∧ r.timestamps = a.timestamps ∧
+      r.data = List.zipWith op.apply a.data b.data ∧ r.data.length = a.data.length := by
+  unfold arith at h
+  split at h
+  · cases h
+  · rename_i heq
+    have heq : b.timestamps = a.timestamps := by
+      by_cases h' : b.timestamps = a.timestamps
+      · exact h'
+      · exact absurd h' heq
+    simp only [Except.ok.injEq] at h
+    have hlen : b.data.length = a.data.length := by
+      rw [← src_timestamps_length a ha, ← src_timestamps_length b hb, heq]
+    have hz : (List.zipWith op.apply a.data b.data).length = a.data.length := by
+      rw [List.length_zipWith, hlen]; simp
+    refine ⟨heq, ?_, ?_, ?_⟩
+    · rw [← h]
+      cases a with
+      | cont c =>
+        simp only [Src.withData, Src.timestamps, Cont.timestamps, Cont.stop]
+        rw [hz]; rfl
+      | ts l =>
+        simp only [Src.withData, Src.timestamps]
+        rw [List.map_fst_zip]
+        rw [hz]; simp [Src.data]
+    · rw [← h]
+      cases a with
+      | cont c => rfl
+      | ts l =>
+        simp only [Src.withData, Src.data]
+        rw [List.map_snd_zip]
+        simp only [Src.data] at hz
+        rw [hz]; simp
+    · rw [← h]
+      cases a with
+      | cont c => exact hz
+      | ts l =>
+        simp only [Src.withData, Src.data]
+        rw [List.map_snd_zip]
+        · exact hz
+        · simp only [Src.data] at hz
+          rw [hz]; simp
+
+/-! ### `downsampled_like` -/
+
+theorem diff_length : ∀ T : List Int, (diff T).length = T.length - 1
+  | [] => rfl
+  | [_] => rfl
+  | a :: b :: r => by simp [diff, diff_length (b :: r)]
+
+theorem repairLoop_length : ∀ (cps : List Nat) (d : List Int), (repairLoop cps d).length = d.length := by
+  intro cps
+  induction cps with
+  | nil => intro d; rfl
+  | cons i rest ih =>
+    intro d
+    unfold repairLoop
+    split
+    · rfl
+    · rw [ih]; simp
+
+theorem likeDeltas_length (T : List Int) : T.length ≤ (likeDeltas T).length := by
+  unfold likeDeltas repair
+  simp only [List.length_cons, repairLoop_length, diff_length]
+  omega
+
+/-- The kept reference samples are a contiguous slice `[i, j)` of the reference. -/
+theorem likeKept_slice (pw : Bool) (c : Cont) (T : List Int) :
+    ∃ i j : Nat, likeKept pw c T = ((T.zip (likeDeltas T)).take j).drop i ∧
+      (likeKept pw c T).map (·.1) = (T.take j).drop i := by
+  refine ⟨likeStart pw c T, searchsortedLeft T c.stop, ?_, ?_⟩
+  · unfold likeKept
+    rw [pySlice_nonneg _ _ _ (by omega) (by omega)]
+    simp
+  · unfold likeKept
+    rw [pySlice_nonneg _ _ _ (by omega) (by omega)]
+    simp only [Int.toNat_natCast, List.map_drop, List.map_take]
+    rw [List.map_fst_zip (likeDeltas_length T)]
+
+/-- Filtering `A ++ K ++ C` by `[lo, hi]` returns `K` when `A` is below, `K` inside and `C` above. -/
+theorem filter_mid (A K C : List Sample) (lo hi : Int) (hA : ∀ x ∈ A, x.1 < lo)
+    (hK : ∀ x ∈ K, lo ≤ x.1 ∧ x.1 ≤ hi) (hC : ∀ x ∈ C, hi < x.1) :
+    (A ++ K ++ C).filter (inWin lo (hi + 1)) = K := by
+  rw [List.filter_append, List.filter_append]
+  have h1 : A.filter (inWin lo (hi + 1)) = [] := by
+    rw [List.filter_eq_nil_iff]; intro x hx; have := hA x hx; simp [inWin]; omega
+  have h2 : K.filter (inWin lo (hi + 1)) = K := by
+    rw [List.filter_eq_self]; intro x hx; have := hK x hx; simp [inWin]; omega
+  have h3 : C.filter (inWin lo (hi + 1)) = [] := by
+    rw [List.filter_eq_nil_iff]; intro x hx; have := hC x hx; simp [inWin]; omega
+  rw [h1, h2, h3]; simp
+
+/-- In a list with strictly increasing timestamps, the samples between the first and the last
+    timestamp of a non-empty contiguous slice are exactly that slice. -/
+theorem filter_run (r : List Sample) (hs : (r.map (·.1)).Pairwise (· < ·)) (i j : Nat) (a b : Sample)
+    (ha : ((r.take j).drop i).head? = some a) (hb : ((r.take j).drop i).getLast? = some b) :
+    r.filter (inWin a.1 (b.1 + 1)) = (r.take j).drop i := by
+  rw [List.pairwise_map] at hs
+  have hsplit : r = (r.take j).take i ++ (r.take j).drop i ++ r.drop j := by
+    rw [List.take_append_drop, List.take_append_drop]
+  generalize hA : (r.take j).take i = A at hsplit
+  generalize hK : (r.take j).drop i = K at *
+  generalize hC : r.drop j = C at hsplit
+  rw [hsplit] at hs
+  conv => lhs; rw [hsplit]
+  obtain ⟨ks, rfl⟩ := List.head?_eq_some_iff.mp ha
+  obtain ⟨ys, hys⟩ := List.getLast?_eq_some_iff.mp hb
+  rw [List.pairwise_append, List.pairwise_append] at hs
+  obtain ⟨⟨_, hKK, hAK⟩, _, hAKC⟩ := hs
+  apply filter_mid
+  · intro x hx; exact hAK x hx a List.mem_cons_self
+  · intro x hx
+    constructor
+    · rcases List.mem_cons.mp hx with rfl | hx'
+      · exact Int.le_refl _
+      · exact Int.le_of_lt ((List.pairwise_cons.mp hKK).1 x hx')
+    · rw [hys] at hx hKK
+      rcases List.mem_append.mp hx with hx' | hx'
+      · exact Int.le_of_lt ((List.pairwise_append.mp hKK).2.2 x hx' b (by simp))
+      · simp at hx'; rw [hx']
+  · intro x hx
+    exact hAKC b (List.mem_append_right _ (by rw [hys]; simp)) x hx
+
+theorem like_ok (pw : Bool) (f : List Rat → Rat) (s ref : Src) (ds refc : List Sample)
+    (h : like pw f s ref = .ok (ds, refc)) :
+    ∃ c r, s = .cont c ∧ ref = .ts r ∧
+      ds = (likeWindows pw c (r.map (·.1))).map (fun (p : Int × List Rat) => (p.1, f p.2)) ∧
+      ∃ a b, ds.head? = some a ∧ ds.getLast? = some b ∧ refc = r.filter (inWin a.1 (b.1 + 1)) := by
+  unfold like at h
+  split at h
+  · cases h
+  · rename_i r
+    split at h
+    · cases h
+    · rename_i c
+      refine ⟨c, r, rfl, rfl, ?_⟩
+      simp only at h
+      split at h
+      · split at h
+        · cases h
+        · split at h
+          · rename_i a b ha hb
+            simp only [Except.ok.injEq, Prod.mk.injEq] at h
+            obtain ⟨h1, h2⟩ := h
+            refine ⟨h1.symm, a, b, ?_, ?_, h2.symm⟩
+            · rw [← h1]; exact ha
+            · rw [← h1]; exact hb
+          · cases h
+      · cases h
+
+theorem like_same' (pw : Bool) (f : List Rat → Rat) (s ref : Src) (ds refc : List Sample)
+    (h : like pw f s ref = .ok (ds, refc)) (hs : (ref.timestamps).Pairwise (· < ·)) :
+    ds.map (·.1) = refc.map (·.1) ∧
+      ∃ r i j, ref = .ts r ∧ refc = (r.take j).drop i := by
+  obtain ⟨c, r, rfl, rfl, hds, a, b, ha, hb, hrefc⟩ := like_ok pw f s ref ds refc h
+  obtain ⟨i, j, _, hfst⟩ := likeKept_slice pw c (r.map (·.1))
+  have hP : ds.map (·.1) = ((r.take j).drop i).map (·.1) := by
+    rw [hds]; unfold likeWindows
+    simp only [List.map_map]
+    rw [List.map_drop, List.map_take, ← hfst]
+    apply List.map_congr_left; intro x _; rfl
+  -- first / last timestamps of the kept run
+  have hha : (((r.take j).drop i).map (·.1)).head? = some a.1 := by
+    rw [← hP, List.head?_map, ha]; rfl
+  have hhb : (((r.take j).drop i).map (·.1)).getLast? = some b.1 := by
+    rw [← hP, List.getLast?_map, hb]; rfl
+  rw [List.head?_map] at hha
+  rw [List.getLast?_map] at hhb
+  cases hx : ((r.take j).drop i).head? with
+  | none => rw [hx] at hha; cases hha
+  | some x =>
+    cases hy : ((r.take j).drop i).getLast? with
+    | none => rw [hy] at hhb; cases hhb
+    | some y =>
+      rw [hx] at hha; rw [hy] at hhb
+      simp only [Option.map_some, Option.some.injEq] at hha hhb
+      have := filter_run r hs i j x y hx hy
+      rw [hha, hhb] at this
+      rw [this] at hrefc
+      exact ⟨by rw [hP, hrefc], r, i, j, rfl, hrefc⟩
+
+theorem like_values' (pw : Bool) (f : List Rat → Rat) (c : Cont) (hdt : 0 < c.dt) (ref : Src) (ds refc : List Sample)
+    (h : like pw f (.cont c) ref = .ok (ds, refc)) :
+    ds = (likeKept pw c ref.timestamps).map fun (p : Int × Int) =>
+      (p.1, f ((c.samples.filter (inWin (p.1 - p.2) p.1)).map (·.2))) := by
+  obtain ⟨c', r, hc, rfl, hds, _⟩ := like_ok pw f _ ref ds refc h
+  cases hc
+  rw [hds]; unfold likeWindows
+  simp only [List.map_map, Src.timestamps]
+  apply List.map_congr_left
+  intro x _
+  simp only [Function.comp]
+  rw [getitem_samples' (.cont c) hdt]
+  rfl
+
+/-- For a predicate that can only switch from true to false along the list, `takeWhile` is `filter`. -/
+theorem take_takeWhile_eq_filter {α} (p : α → Bool) :
+    ∀ (Z : List α), Z.Pairwise (fun x y => p y = true → p x = true) →
+      Z.take (Z.takeWhile p).length = Z.filter p := by
+  intro Z
+  induction Z with
+  | nil => intro _; rfl
+  | cons x xs ih =>
+    intro H
+    obtain ⟨hx, hxs⟩ := List.pairwise_cons.mp H
+    by_cases hp : p x = true
+    · simp [hp, ih hxs]
+    · have : xs.filter p = [] := by
+        rw [List.filter_eq_nil_iff]; intro y hy hpy; exact hp (hx y hy hpy)
+      simp [hp, this]
+
+/-- Two threshold predicates along a list: `l[i:j]` with `i`, `j` the lengths of the prefixes on which
+    they hold is the filter "not the first, but the second". -/
+theorem take_drop_takeWhile {α} (p1 p2 : α → Bool) :
+    ∀ (Z : List α), Z.Pairwise (fun x y => p1 y = true → p1 x = true) →
+      Z.Pairwise (fun x y => p2 y = true → p2 x = true) →
+      (Z.take (Z.takeWhile p2).length).drop (Z.takeWhile p1).length = Z.filter (fun z => !p1 z && p2 z) := by
+  intro Z
+  induction Z with
+  | nil => intro _ _; rfl
+  | cons x xs ih =>
+    intro H1 H2
+    obtain ⟨hx1, hxs1⟩ := List.pairwise_cons.mp H1
+    obtain ⟨hx2, hxs2⟩ := List.pairwise_cons.mp H2
+    by_cases hp2 : p2 x = true
+    · by_cases hp1 : p1 x = true
+      · simp [hp1, hp2, ih hxs1 hxs2]
+      · have hnone : ∀ y ∈ xs, p1 y = false := by
+          intro y hy
+          cases hpy : p1 y with
+          | false => rfl
+          | true => exact absurd (hx1 y hy hpy) hp1
+        have hf : xs.filter (fun z => !p1 z && p2 z) = xs.filter p2 := by
+          apply List.filter_congr
+          intro y hy; simp [hnone y hy]
+        simp [hp1, hp2, hf, take_takeWhile_eq_filter p2 xs hxs2]
+    · have : (x :: xs).filter (fun z => !p1 z && p2 z) = [] := by
+        rw [List.filter_eq_nil_iff]
+        intro y hy hpy
+        simp only [Bool.and_eq_true] at hpy
+        rcases List.mem_cons.mp hy with rfl | hy'
+        · exact hp2 hpy.2
+        · exact hp2 (hx2 y hy' hpy.2)
+      rw [this]
+      simp [List.takeWhile_cons, hp2]
+
+/-- Which reference samples are kept, as the code is (`pw = false`): for a sorted reference exactly
+    those with `T - δ₀ ≥ start` (δ₀ = the FIRST window length) and `T < stop`. -/
+theorem likeKept_spec' (c : Cont) (T : List Int) (hs : T.Pairwise (· < ·)) :
+    likeKept false c T = (T.zip (likeDeltas T)).filter fun p =>
+      decide (c.start ≤ p.1 - (likeDeltas T).headD 0) && decide (p.1 < c.stop) := by
+  unfold likeKept likeStart
+  rw [C01.pySlice_nonneg _ _ _ (by omega) (by omega)]
+  simp only [Int.toNat_natCast, Bool.false_eq_true, if_false, searchsortedLeft]
+  generalize hZ : T.zip (likeDeltas T) = Z
+  generalize (likeDeltas T).headD 0 = d0
+  have hT : T = Z.map (·.1) := by rw [← hZ, List.map_fst_zip (likeDeltas_length T)]
+  rw [hT, List.map_map, List.takeWhile_map, List.takeWhile_map, List.length_map, List.length_map]
+  have hZs : Z.Pairwise (fun a b => a.1 < b.1) := by rw [hT, List.pairwise_map] at hs; exact hs
+  rw [take_drop_takeWhile]
+  · apply List.filter_congr
+    intro z _
+    simp only [Function.comp]
+    by_cases h1 : z.1 - d0 < c.start <;> by_cases h2 : z.1 < c.stop <;> simp [h1, h2]
+    omega
+  · refine hZs.imp ?_
+    intro a b hab; simp only [Function.comp, decide_eq_true_eq]; omega
+  · refine hZs.imp ?_
+    intro a b hab; simp only [Function.comp, decide_eq_true_eq]; omega
+
+/-- The sequential loop on an ascending list of change points: entry `j` is overwritten by its right
+    neighbour exactly when `j - 1` is a change point and the neighbour exists (the `IndexError` that
+    ends the loop can only come from the last possible change point, which changes nothing). -/
+theorem repairLoop_getElem? : ∀ (cps : List Nat), cps.Pairwise (· < ·) → ∀ (e : List Int) (j : Nat),
+    (repairLoop cps e)[j]? =
+      if (∃ i ∈ cps, j = i + 1 ∧ i + 2 < e.length) then e[j + 1]? else e[j]? := by
+  intro cps
+  induction cps with
+  | nil => intro _ e j; simp [repairLoop]
+  | cons i rest ih =>
+    intro hs e j
+    obtain ⟨hi, hrest⟩ := List.pairwise_cons.mp hs
+    unfold repairLoop
+    cases hv : e[i + 2]? with
+    | none =>
+      have hlen : e.length ≤ i + 2 := List.getElem?_eq_none_iff.mp hv
+      simp only
+      rw [if_neg]
+      rintro ⟨i', hi', _, h2⟩
+      rcases List.mem_cons.mp hi' with rfl | hm
+      · omega
+      · have := hi i' hm; omega
+    | some v =>
+      have hlen : i + 2 < e.length := by
+        by_cases h : i + 2 < e.length
+        · exact h
+        · rw [List.getElem?_eq_none_iff.mpr (by omega)] at hv; cases hv
+      simp only
+      rw [ih hrest, List.length_set]
+      by_cases hj : j = i + 1
+      · subst hj
+        rw [if_neg, if_pos ⟨i, List.mem_cons_self, rfl, hlen⟩]
+        · rw [List.getElem?_set_self (by omega), hv]
+        · rintro ⟨i', hi', h1, _⟩
+          have := hi i' hi'; omega
+      · by_cases hc : ∃ i' ∈ rest, j = i' + 1 ∧ i' + 2 < e.length
+        · rw [if_pos hc]
+          obtain ⟨i', hi', h1, h2⟩ := hc
+          rw [if_pos ⟨i', List.mem_cons_of_mem _ hi', h1, h2⟩]
+          have := hi i' hi'
+          rw [List.getElem?_set_ne (by omega)]
+        · rw [if_neg hc, if_neg]
+          · rw [List.getElem?_set_ne (by omega)]
+          · rintro ⟨i', hi', h1, h2⟩
+            rcases List.mem_cons.mp hi' with rfl | hm
+            · exact hj h1
+            · exact hc ⟨i', hm, h1, h2⟩
+
+theorem changePoints_sorted (d : List Int) : (changePoints d).Pairwise (· < ·) := by
+  unfold changePoints
+  exact List.Pairwise.filter _ List.pairwise_lt_range
+
+theorem mem_changePoints (d : List Int) (i : Nat) :
+    i ∈ changePoints d ↔ i < d.length - 1 ∧ d.getD i 0 < d.getD (i + 1) 0 := by
+  unfold changePoints
+  simp [List.mem_filter, List.mem_range]
+
+/-- Closed form of the change-point repair of `downsampled_like`: a period that is longer than its
+    predecessor is replaced by its successor when there is one; everything else is unchanged. -/
+theorem repair_getElem? (d : List Int) (j : Nat) :
+    (repair d)[j]? =
+      if 1 ≤ j ∧ j + 1 < d.length ∧ d.getD (j - 1) 0 < d.getD j 0 then d[j + 1]? else d[j]? := by
+  unfold repair
+  rw [repairLoop_getElem? _ (changePoints_sorted d)]
+  by_cases h : 1 ≤ j ∧ j + 1 < d.length ∧ d.getD (j - 1) 0 < d.getD j 0
+  · rw [if_pos h, if_pos]
+    obtain ⟨h1, h2, h3⟩ := h
+    refine ⟨j - 1, (mem_changePoints d _).mpr ⟨by omega, ?_⟩, by omega, by omega⟩
+    have : j - 1 + 1 = j := by omega
+    rw [this]; exact h3
+  · rw [if_neg h, if_neg]
+    rintro ⟨i, hi, rfl, h2⟩
+    apply h
+    obtain ⟨_, h3⟩ := (mem_changePoints d i).mp hi
+    exact ⟨by omega, by omega, by simpa using h3⟩
+
 end Verif.C04
